@@ -251,6 +251,14 @@ def sched_oracle(groups: list[Group], executor: str) -> list[tuple[str, str]]:
                     v.append(('C08', f'group {gi}: one-shot job {h} finished without having been executed'))
             if loop_ran and enabled and st == 'running' and nr != '-' and int(nr) <= g.now:
                 v.append(('C01', f'group {gi}: job {h} is overdue after the loop ran: next_run {nr} <= now {g.now}'))
+        # `last_run` is the instant of the most recent execution (none before the first one)
+        for h, lr in g.state.get('last', {}).items():
+            jv = jobs.get(h)
+            if jv is None or not jv.created_ok:
+                continue
+            want_lr = str(jv.execs[-1]) if jv.execs else '-'
+            if lr != want_lr:
+                v.append(('C07', f'group {gi}: job {h} reports last_run {lr}, its most recent execution was at {want_lr}'))
         if loop_ran:
             for h, due in cd_armed.items():
                 if due is not None and due <= g.now and enabled and not cd_touched_after_due.get(h):
